@@ -189,8 +189,9 @@ class Interp(ExprMixin):
             return False
         if f.key in self.inline_set or '*' in self.inline_set:
             return True
-        if f.key not in known_functions() and not _is_generator(f.node):
-            return True      # a helper introduced after the rules were written: transparent
+        if f.key not in known_functions() and not _is_generator(f.node) and not f.is_cached:
+            return True      # a helper introduced after the rules were written: transparent (a memoised one is not:
+            #                  its result is shared between calls)
         if auto_simple:
             body = [s for s in f.node.body if not (isinstance(s, ast.Expr) and isinstance(s.value, ast.Constant))]
             if len(body) == 1 and isinstance(body[0], ast.Return):
@@ -935,6 +936,9 @@ def canon_cond(tv, pol):
         a = tv.single_atom() if isinstance(tv, Poly) else None
         if a is not None and a[0] == 'app' and a[1] == 'not' and len(a[2]) == 1 and isinstance(a[2][0], Poly):
             tv, pol = a[2][0], not pol
+        elif a is not None and a[0] == 'app' and a[1] in ('isnot', 'notin', 'ne') and len(a[2]) == 2:
+            # `x is not y` taken == `x is y` not taken (likewise not in / !=)
+            tv, pol = app({'isnot': 'is', 'notin': 'in', 'ne': 'eq'}[a[1]], *a[2]), not pol
         else:
             break
     return tv, pol
@@ -992,6 +996,10 @@ def implied(tv, conds):
     same term with constants); None when they do not."""
     if not isinstance(tv, Poly) or not conds:
         return None
+    ctv, cpol = canon_cond(tv, True)
+    if ctv != tv:
+        r = implied(ctv, conds)
+        return None if r is None else (r if cpol else not r)
     a = tv.single_atom()
     if a is not None and a[0] == 'app' and a[1] == 'not' and isinstance(a[2][0], Poly):
         r = implied(a[2][0], conds)
